@@ -4,7 +4,7 @@ Theorems about `Gpa.Pipeline.handle`, universally quantified over the MAC functi
 (rules per endpoint in any mode/default, or unavailable; key or none), connection context, and the
 request (method, URL, headers, body, declared length).
 -/
-import Gpa.Model.Pipeline
+import Gpa.Lemmas.Pipeline
 import Gpa.Props.C02
 namespace Gpa.Props.C01
 open Gpa.Pipeline Gpa.Rbac Gpa.Text Gpa.Url Gpa.Canon
@@ -14,36 +14,6 @@ variable (mac : Str → List UInt8 → Str)
 def isForward : Outcome → Bool
   | .forward _ => true
   | _ => false
-
-theorem handle_eq_connStage (env : Env) (conn : Conn) (r : Req)
-    (hl : ¬ (r.declared.getD 0) > limitFor r) (ht : containsSub r.uri.path ['.', '.'] = false)
-    (hp : r.uri.toStr ≠ provisionUrl) :
-    handle mac env conn r = connStage mac env conn r := by
-  unfold handle
-  rw [if_neg hl, if_neg (by rw [ht]; exact Bool.false_ne_true), if_neg hp]
-
-theorem connStage_attributed (env : Env) (conn : Conn) (r : Req) (ip : Str) (port : Nat) (c : Caller)
-    (hd : conn.dest = some (ip, port)) (hc : conn.caller = some c) :
-    connStage mac env conn r = authStage mac env ip port c r := by
-  unfold connStage; rw [hd, hc]
-
-theorem authStage_err (env : Env) (r : Req) (ip : Str) (port : Nat) (c : Caller)
-    (h : rulesFor (endpointOf ip port) env = .err) :
-    authStage mac env ip port c r = ⟨.respond 500, 0⟩ := by
-  unfold authStage; rw [h]
-
-theorem authStage_forbidden (env : Env) (r : Req) (ip : Str) (port : Nat) (c : Caller) (rules)
-    (hr : rulesFor (endpointOf ip port) env = .ok rules)
-    (h : authorize (endpointOf ip port) c r.uri rules = .forbidden) :
-    authStage mac env ip port c r = ⟨.respond 403, 1⟩ := by
-  unfold authStage; rw [hr]; simp [h]
-
-theorem authStage_pass (env : Env) (r : Req) (ip : Str) (port : Nat) (c : Caller) (rules)
-    (hr : rulesFor (endpointOf ip port) env = .ok rules)
-    (h : authorize (endpointOf ip port) c r.uri rules ≠ .forbidden) :
-    authStage mac env ip port c r =
-      ⟨forwardStage mac env c r, if authorize (endpointOf ip port) c r.uri rules = .ok then 0 else 1⟩ := by
-  unfold authStage; rw [hr]; simp [h]
 
 /-- **C01(a)** a request is relayed only if its connection carries a destination and a caller
 (i.e. the kernel hook attributed it), the path has no `..`, the rules could be read, and the
@@ -55,30 +25,8 @@ theorem forward_only_if_attributed_and_authorized (env : Env) (conn : Conn) (r :
       containsSub r.uri.path ['.', '.'] = false ∧
       rulesFor (endpointOf ip port) env = .ok rules ∧
       authorize (endpointOf ip port) caller r.uri rules ≠ .forbidden := by
-  unfold handle at h
-  by_cases hl : (r.declared.getD 0) > limitFor r
-  · rw [if_pos hl] at h; cases h
-  rw [if_neg hl] at h
-  by_cases ht : containsSub r.uri.path ['.', '.'] = true
-  · rw [if_pos ht] at h; cases h
-  rw [if_neg ht] at h
-  by_cases hp : r.uri.toStr = provisionUrl
-  · rw [if_pos hp] at h; cases h
-  rw [if_neg hp] at h
-  cases hd : conn.dest with
-  | none => unfold connStage at h; rw [hd] at h; cases h
-  | some d =>
-    obtain ⟨ip, port⟩ := d
-    cases hc : conn.caller with
-    | none => unfold connStage at h; rw [hd, hc] at h; cases h
-    | some caller =>
-      rw [connStage_attributed mac env conn r ip port caller hd hc] at h
-      cases hr : rulesFor (endpointOf ip port) env with
-      | err => rw [authStage_err mac env r ip port caller hr] at h; cases h
-      | ok rules =>
-        by_cases hf : authorize (endpointOf ip port) caller r.uri rules = .forbidden
-        · rw [authStage_forbidden mac env r ip port caller rules hr hf] at h; cases h
-        · exact ⟨ip, port, caller, rules, rfl, rfl, by simpa using ht, hr, hf⟩
+  obtain ⟨ip, port, caller, rules, hd, hc, ht, _, _, hr, hf, _⟩ := handle_forward mac env conn r u h
+  exact ⟨ip, port, caller, rules, hd, hc, ht, hr, hf⟩
 
 /-- **C01(b)** a connection made directly to the listener (no attribution record) is never
 relayed, whatever the request and whatever the policy. -/
